@@ -304,6 +304,24 @@ pub fn compile_with(sp: &Sprite, rng: &mut Rng, v: &Variation, palprog: &Palette
         }
     }
 
+    // a redundant legacy palette may also sit at the start of a later frame (the
+    // new-format palette of frame 0 still takes precedence); every later frame
+    // continues with a cel chunk or ends, never with a user-data chunk
+    if v.legacy_pal && nframes > 1 && rng.chance(1, 3) {
+        if let Some(pal) = &sp.palette {
+            if !pal.is_empty() {
+                let f = 1 + rng.usize_below(nframes - 1);
+                let next_is_ud = matches!(frames[f].chunks.first().map(|c| &c.spec), Some(ChunkSpec::UserData(_)));
+                // the chunk after it must not be a user-data record (it would attach to the sprite)
+                let following_frame_starts_with_ud = frames[f].chunks.is_empty() && frames.get(f + 1).map_or(false, |fr| matches!(fr.chunks.first().map(|c| &c.spec), Some(ChunkSpec::UserData(_))));
+                if !next_is_ud && !following_frame_starts_with_ud && !frames[f].chunks.is_empty() {
+                    let legacy = legacy_redundant(pal, rng);
+                    frames[f].chunks.insert(0, legacy.into());
+                }
+            }
+        }
+    }
+
     // ---- neutral decorations --------------------------------------------------
     for fr in frames.iter_mut() {
         if v.ignorable {
